@@ -11,6 +11,8 @@ over an abstract key-value store.  Core Lean only.
   `{Addr := spelling, 0, 0}` (`LoadAccount`).
 * The exec sub-ledger key is `(execaddr as spelled, norm addr)` (`execAccountKey` does not
   normalise `execaddr`).
+* Every addition goes through `safeAdd` (main ledger always; exec sub-ledger since repo commit
+  b0959e4), computed before anything is saved.
 * Go `panic(err)` sites (`TransferToExec`, `TransferWithdraw`, `GenesisInitExec`) are the explicit
   result `Res.panic`, with the store as it is at the moment of the panic (earlier `db.Set`s stay).
 -/
@@ -30,10 +32,11 @@ def maxBal : Int := 9000000000000000000
 /-- `types.CheckAmount(amount, coinPrecision)`. -/
 def checkAmount (amt : Int) : Bool := decide (0 < amt) && decide (amt < amountLimit)
 
-/-- `safeAdd` of genesis.go: `none` = `ErrAmount`. -/
+/-- `safeAdd` of genesis.go: `none` = `ErrAmount` (negative amounts rejected since repo commit
+b0959e4). -/
 def safeAdd (bal amt : Int) : Option Int :=
   let s := wrap (bal + amt)
-  if s < amt ∨ s > maxBal then none else some s
+  if amt < 0 ∨ s < amt ∨ s > maxBal then none else some s
 
 /-! ## association lists (the KV store) -/
 
@@ -178,7 +181,9 @@ def execDeposit (c : Cfg σ κ) (s : State σ κ) (a e : σ) (amt : Int) : State
   if a = e then (s, .errSame) else
   if !checkAmount amt then (s, .errAmount) else
   let A := loadSub c s a e
-  (saveSub c s e { A with bal := wrap (A.bal + amt) }, .ok)
+  match safeAdd A.bal amt with
+  | none => (s, .errAmount)
+  | some nb => (saveSub c s e { A with bal := nb }, .ok)
 
 /-- `ExecWithdraw(execaddr, addr, amount)`. -/
 def execWithdraw (c : Cfg σ κ) (s : State σ κ) (e a : σ) (amt : Int) : State σ κ × Res :=
@@ -217,7 +222,9 @@ def execFrozen (c : Cfg σ κ) (s : State σ κ) (a e : σ) (amt : Int) : State 
   if !checkAmount amt then (s, .errAmount) else
   let A := loadSub c s a e
   if wrap (A.bal - amt) < 0 then (s, .errNoBalance) else
-  (saveSub c s e { A with bal := wrap (A.bal - amt), frz := wrap (A.frz + amt) }, .ok)
+  match safeAdd A.frz amt with
+  | none => (s, .errAmount)
+  | some nf => (saveSub c s e { A with bal := wrap (A.bal - amt), frz := nf }, .ok)
 
 /-- `ExecActive`. -/
 def execActive (c : Cfg σ κ) (s : State σ κ) (a e : σ) (amt : Int) : State σ κ × Res :=
@@ -225,7 +232,9 @@ def execActive (c : Cfg σ κ) (s : State σ κ) (a e : σ) (amt : Int) : State 
   if !checkAmount amt then (s, .errAmount) else
   let A := loadSub c s a e
   if wrap (A.frz - amt) < 0 then (s, .errNoBalance) else
-  (saveSub c s e { A with bal := wrap (A.bal + amt), frz := wrap (A.frz - amt) }, .ok)
+  match safeAdd A.bal amt with
+  | none => (s, .errAmount)
+  | some nb => (saveSub c s e { A with bal := nb, frz := wrap (A.frz - amt) }, .ok)
 
 /-- `ExecTransfer`: rejected when the spellings or the storage keys (`FormatAddrKey`) of `from` and
 `to` coincide (repo commit 3bc3d2b); both records are loaded before either is saved. -/
@@ -235,8 +244,10 @@ def execTransfer (c : Cfg σ κ) (s : State σ κ) (src dst e : σ) (amt : Int) 
   let F := loadSub c s src e
   let T := loadSub c s dst e
   if wrap (F.bal - amt) < 0 then (s, .errNoBalance) else
-  (saveSub c (saveSub c s e { F with bal := wrap (F.bal - amt) }) e
-      { T with bal := wrap (T.bal + amt) }, .ok)
+  match safeAdd T.bal amt with
+  | none => (s, .errAmount)
+  | some nb =>
+    (saveSub c (saveSub c s e { F with bal := wrap (F.bal - amt) }) e { T with bal := nb }, .ok)
 
 /-- `ExecTransferFrozen` (same guard as `ExecTransfer`). -/
 def execTransferFrozen (c : Cfg σ κ) (s : State σ κ) (src dst e : σ) (amt : Int) :
@@ -246,21 +257,32 @@ def execTransferFrozen (c : Cfg σ κ) (s : State σ κ) (src dst e : σ) (amt :
   let F := loadSub c s src e
   let T := loadSub c s dst e
   if wrap (F.frz - amt) < 0 then (s, .errNoBalance) else
-  (saveSub c (saveSub c s e { F with frz := wrap (F.frz - amt) }) e
-      { T with bal := wrap (T.bal + amt) }, .ok)
+  match safeAdd T.bal amt with
+  | none => (s, .errAmount)
+  | some nb =>
+    (saveSub c (saveSub c s e { F with frz := wrap (F.frz - amt) }) e { T with bal := nb }, .ok)
 
 /-- `ExecIssueCoins`. -/
 def execIssue (c : Cfg σ κ) (s : State σ κ) (e : σ) (amt : Int) : State σ κ × Res :=
   if !c.allow e then (s, .errNotAllow) else depositBalance c s e amt
 
-/-- `ExecDepositFrozen` = `ExecIssueCoins` then the private `execDepositFrozen`
-(whose own checks cannot fail once the issue succeeded: `addr ≠ execaddr`, amount checked). -/
+/-- the private `execDepositFrozen` once `addr ≠ execaddr` and `CheckAmount` are known to hold
+(they were checked by the caller / by `ExecIssueCoins`): only its `safeAdd` can fail. -/
+def depositFrozen2 (c : Cfg σ κ) (s : State σ κ) (a e : σ) (amt : Int) : State σ κ × Res :=
+  let A := loadSub c s a e
+  match safeAdd A.frz amt with
+  | none => (s, .errAmount)
+  | some nf => (saveSub c s e { A with frz := nf }, .ok)
+
+/-- `ExecDepositFrozen`: for a valid amount the frozen addition is checked first (repo commit
+bc0ebed), then `ExecIssueCoins`, then the private `execDepositFrozen` (which then cannot fail; its
+error would be returned after the issue was saved). -/
 def execDepositFrozen (c : Cfg σ κ) (s : State σ κ) (a e : σ) (amt : Int) : State σ κ × Res :=
   if a = e then (s, .errSame) else
+  if checkAmount amt && (safeAdd (loadSub c s a e).frz amt).isNone then (s, .errAmount) else
   let s1 := execIssue c s e amt
   if s1.2 ≠ .ok then s1 else
-  let A := loadSub c s1.1 a e
-  (saveSub c s1.1 e { A with frz := wrap (A.frz + amt) }, .ok)
+  depositFrozen2 c s1.1 a e amt
 
 def step (c : Cfg σ κ) (s : State σ κ) : Op σ → State σ κ × Res
   | .transfer f t amt => transfer c s f t amt
